@@ -503,6 +503,10 @@ class GateMemoizer:
         def make_context_entry(arg):
             if isinstance(arg, str):
                 return context.get(arg)
+            elif isinstance(arg, (list, tuple)):
+                # e.g. array_item: the array and index names also depend
+                # on the context.
+                return tuple(make_context_entry(a) for a in arg)
             else:
                 return None
 
